@@ -361,6 +361,12 @@ class Gen:
                     idx = r.randrange(f[3])
                     v = '{ [%d] = %s }' % (idx, self.const_val(f[2]))
                     self.features.add('init-array-designator')
+                    if r.random() < 0.35:
+                        # C11 6.7.9p19: a later initialiser for the same element overrides the earlier one
+                        idx2 = r.randrange(f[3])
+                        v = '{ [%d] = %s, [%d] = %s, [%d] = %s }' % (idx, self.const_val(f[2]), idx2, self.const_val(f[2]),
+                                                                   r.choice([idx, idx, idx2]), self.const_val(f[2]))
+                        self.features.add('init-repeated-designator')
                 else:
                     v = '{ %s }' % ', '.join(self.const_val(f[2]) for _ in range(r.randint(1, f[3])))
             else:
@@ -368,6 +374,12 @@ class Gen:
             items.append(('.%s = %s' % (f[1], v)) if designated else v)
         if designated:
             self.features.add('init-designated')
+            again = [f for f in chosen if f[0] == 'scalar']
+            if again and r.random() < 0.3:
+                # a member named twice: the last initialiser wins (static and automatic objects alike)
+                for f in r.sample(again, min(len(again), r.choice([1, 1, 2]))):
+                    items.insert(r.randint(0, len(items)) if r.random() < 0.3 else len(items), '.%s = %s' % (f[1], self.const_val(f[2])))
+                self.features.add('init-repeated-designator')
         if not items:
             return '{ 0 }'
         return '{ %s }' % ', '.join(items)
